@@ -4,7 +4,7 @@
    GENERATED from /repo on every run (Generated/Gcirc.v, Generated/Coord.v). *)
 From Coq Require Import Reals ZArith QArith List.
 Import ListNotations.
-From PV Require Import C18.Spec C18.SpecProofs Generated.Gcirc Generated.Coord C18.Model C18.Proofs C18.Angles.
+From PV Require Import C18.Spec C18.SpecProofs Generated.Gcirc Generated.Coord C18.Model C18.Proofs C18.Angles C18.RoundTrip.
 Open Scope R_scope.
 
 (* ---- gcirc ---- *)
@@ -111,6 +111,48 @@ Theorem C18_latitude_legal : forall a b incl node,
   (let v := r2m_vec a b incl node in r2m_lat v = asin (snd v) /\ -1 <= snd v <= 1).
 Proof. exact latitude_legal. Qed.
 Print Assumptions C18_latitude_legal.
+
+(* ---- the same at the level of ANGLES: m2r_angles / r2m_angles are (generated longitude, generated latitude) of the
+   generated vectors, i.e. (atan2 y x + node, asin z) with atan2 := Spec.atan2 ---- *)
+
+(* (mu, nu) -> ICRS -> (mu, nu) returns the starting point, mu reduced to node + (-PI, PI] ("mu mod 360"), for |nu| < 90 deg,
+   every inclination (stripe) and node *)
+Theorem C18_munu_radec_munu_angles : forall mu0 nu incl node k,
+  - (PI / 2) < nu < PI / 2 -> - PI < mu0 - node <= PI ->
+  let '(ra, dec) := m2r_angles (mu0 + 2 * IZR k * PI) nu incl node in
+  r2m_angles ra dec incl node = (mu0, nu).
+Proof. exact munu_radec_munu_angles. Qed.
+Print Assumptions C18_munu_radec_munu_angles.
+
+(* ICRS -> (mu, nu) -> ICRS, for |dec| < 90 deg *)
+Theorem C18_radec_munu_radec_angles : forall ra0 dec incl node k,
+  - (PI / 2) < dec < PI / 2 -> - PI < ra0 - node <= PI ->
+  let '(mu, nu) := r2m_angles (ra0 + 2 * IZR k * PI) dec incl node in
+  m2r_angles mu nu incl node = (ra0, dec).
+Proof. exact radec_munu_radec_angles. Qed.
+Print Assumptions C18_radec_munu_radec_angles.
+
+(* the returned angles represent the rotated unit vector for EVERY input, poles included *)
+Theorem C18_angles_represent_vector : forall a b incl node,
+  (let '(ra, dec) := m2r_angles a b incl node in vec dec (ra - node) = m2r_vec a b incl node) /\
+  (let '(mu, nu) := r2m_angles a b incl node in vec nu (mu - node) = r2m_vec a b incl node).
+Proof. exact angles_represent_vector. Qed.
+Print Assumptions C18_angles_represent_vector.
+
+(* separations are preserved at the level of gcirc: the great-circle distance of the images equals that of the originals *)
+Theorem C18_gcirc_preserved_m2r : forall mu1 nu1 mu2 nu2 incl node,
+  let '(ra1, dec1) := m2r_angles mu1 nu1 incl node in
+  let '(ra2, dec2) := m2r_angles mu2 nu2 incl node in
+  gcirc_rad ra1 dec1 ra2 dec2 = gcirc_rad mu1 nu1 mu2 nu2.
+Proof. exact gcirc_preserved_m2r. Qed.
+Print Assumptions C18_gcirc_preserved_m2r.
+
+Theorem C18_gcirc_preserved_r2m : forall ra1 dec1 ra2 dec2 incl node,
+  let '(mu1, nu1) := r2m_angles ra1 dec1 incl node in
+  let '(mu2, nu2) := r2m_angles ra2 dec2 incl node in
+  gcirc_rad mu1 nu1 mu2 nu2 = gcirc_rad ra1 dec1 ra2 dec2.
+Proof. exact gcirc_preserved_r2m. Qed.
+Print Assumptions C18_gcirc_preserved_r2m.
 
 (* nu = 0 traces the great circle whose normal is tilted by incl from the pole, through RA = node, Dec = 0 *)
 Theorem C18_nu0_great_circle : forall mu incl node,
